@@ -268,6 +268,58 @@ pub fn matrix(rep: &mut Report, u: &mut U, ep: &Ep, holder: &Address, formers: &
     ok_all
 }
 
+/// Entry points outside the pinned interface, called by a stranger (with the stranger's authorisation
+/// or none) with the addresses at hand: whatever else they do, who holds which role must read the same
+/// afterwards.
+fn unknown_admin_probe(rep: &mut Report, u: &mut U, label: &str, dir: &str, known: &[&str], addr: &Address, stranger: &Address, holders: &[Address], roles: &dyn Fn(&mut U) -> String) {
+    let names = unknown_entry_points(dir, known);
+    if names.is_empty() {
+        return;
+    }
+    let ck = u.checkpoint();
+    let before = roles(u);
+    let mut tuples: Vec<SVec<Val>> = Vec::new();
+    let mut shapes: Vec<Vec<Val>> = vec![vec![], vec![stranger.to_val()], vec![stranger.to_val(), true.into()]];
+    for h in holders {
+        shapes.push(vec![h.to_val(), stranger.to_val()]);
+        shapes.push(vec![h.to_val()]);
+    }
+    for sh in shapes {
+        let mut v: SVec<Val> = SVec::new(&u.env);
+        for a in sh {
+            v.push_back(a);
+        }
+        tuples.push(v);
+    }
+    let mut accepted = 0;
+    let mut changed: Option<(String, String)> = None;
+    'outer: for auth in [Auth::AllBy(stranger.clone()), Auth::Nobody] {
+        for name in &names {
+            for t in &tuples {
+                // judged after every accepted call: a later call may put things back
+                if u.try_unknown(addr, std::slice::from_ref(name), std::slice::from_ref(t), &auth) > 0 {
+                    accepted += 1;
+                    let after = roles(u);
+                    if after != before {
+                        changed = Some((name.clone(), after));
+                        break 'outer;
+                    }
+                }
+            }
+        }
+    }
+    rep.count("unknown-entry-point-tried");
+    if accepted > 0 {
+        rep.count("note:unknown-entry-point-accepted-a-stranger's-call");
+    }
+    rep.eval(&format!("{}.unknown-entry-points", label), &format!("{}|unknown|{}", label, changed.is_none()), true);
+    if let Some((name, after)) = changed {
+        rep.step(format!("roles before: {} / after: {}", before, after));
+        rep.violation(&format!("roles-changed-by-a-stranger-through-an-unknown-entry-point:{}", label), format!("after a stranger's call of {} the roles of {} read {} (were {})", name, label, after, before));
+    }
+    u.restore(&ck);
+}
+
 pub fn run(ctx: &Ctx, rep: &mut Report) {
     // x2: roles held by different addresses / initially by one and the same address
     let total = (CONTRACTS.len() * HISTORIES.len()) as u64 * 2 * if ctx.thorough() { 3 } else { 1 };
@@ -371,6 +423,13 @@ pub fn run(ctx: &Ctx, rep: &mut Report) {
                     matrix(rep, &mut u, ep, &operator, &operators[..operators.len() - 1], Some(&owner), &stranger, history);
                 }
                 eps.clear();
+                {
+                    let a = g.addr.clone();
+                    unknown_admin_probe(rep, &mut u, "gateway", "axelar-gateway", &["owner", "transfer_ownership", "operator", "transfer_operatorship", "version", "upgrade", "migrate"], &g.addr, &stranger, &[owner.clone(), operator.clone()], &move |u: &mut U| {
+                        let a = a.clone();
+                        u.query(move |env| format!("owner={:?} operator={:?}", OwnableClient::new(env, &a).try_owner(), OperatableClient::new(env, &a).try_operator()))
+                    });
+                }
             }
             "gas-service" => {
                 let mut u = U::new();
@@ -451,6 +510,13 @@ pub fn run(ctx: &Ctx, rep: &mut Report) {
                 for ep in &c_eps {
                     matrix(rep, &mut u, ep, &collector, &[], Some(&owner), &stranger, history);
                 }
+                {
+                    let a = gs.clone();
+                    unknown_admin_probe(rep, &mut u, "gas-service", "axelar-gas-service", &["owner", "transfer_ownership", "version", "upgrade", "migrate"], &gs, &stranger, &[owner.clone(), collector.clone()], &move |u: &mut U| {
+                        let a = a.clone();
+                        u.query(move |env| format!("owner={:?} collector={:?}", OwnableClient::new(env, &a).try_owner(), AxelarGasServiceClient::new(env, &a).try_gas_collector()))
+                    });
+                }
             }
             "operators" => {
                 let mut u = U::new();
@@ -500,6 +566,16 @@ pub fn run(ctx: &Ctx, rep: &mut Report) {
                     matrix(rep, &mut u, ep, &owner, &owners[..owners.len() - 1], Some(&member), &stranger, history);
                 }
                 migrate_after_handover(rep, &mut u, "operators", &oc, false, &owners, &newcomer, &stranger, history);
+                {
+                    let (a, m, st) = (oc.clone(), member.clone(), stranger.clone());
+                    unknown_admin_probe(rep, &mut u, "operators", "axelar-operators", &["owner", "transfer_ownership", "version", "upgrade", "migrate"], &oc, &stranger, &[owner.clone(), member.clone()], &move |u: &mut U| {
+                        let (a, m, st) = (a.clone(), m.clone(), st.clone());
+                        u.query(move |env| {
+                            let c = AxelarOperatorsClient::new(env, &a);
+                            format!("owner={:?} member={:?} stranger={:?}", OwnableClient::new(env, &a).try_owner(), c.try_is_operator(&m), c.try_is_operator(&st))
+                        })
+                    });
+                }
             }
             "its" => {
                 let mut w = ItsWorld::new(&mut rng, b"stellar", b"hub", 1);
@@ -537,6 +613,16 @@ pub fn run(ctx: &Ctx, rep: &mut Report) {
                 }
                 let its_addr = w.its.clone();
                 migrate_after_handover(rep, &mut w.u, "its", &its_addr, false, &owners, &newcomer, &stranger, history);
+                {
+                    let a = w.its.clone();
+                    unknown_admin_probe(rep, &mut w.u, "its", "interchain-token-service", &["owner", "transfer_ownership", "version", "upgrade", "migrate"], &its_addr, &stranger, &[owner.clone()], &move |u: &mut U| {
+                        let a = a.clone();
+                        u.query(move |env| {
+                            let c = InterchainTokenServiceClient::new(env, &a);
+                            format!("owner={:?} ethereum={:?} avalanche={:?}", OwnableClient::new(env, &a).try_owner(), c.try_is_trusted_chain(&sstr(env, b"ethereum")), c.try_is_trusted_chain(&sstr(env, b"avalanche")))
+                        })
+                    });
+                }
             }
             "interchain-token" => {
                 let mut u = U::new();
@@ -626,6 +712,16 @@ pub fn run(ctx: &Ctx, rep: &mut Report) {
                     matrix(rep, &mut u, ep, &owner, &owners[..owners.len() - 1], Some(&minter), &stranger, history);
                 }
                 migrate_after_handover(rep, &mut u, "interchain-token", &tk, false, &owners, &newcomer, &stranger, history);
+                {
+                    let (a, m, st) = (tk.clone(), minter.clone(), stranger.clone());
+                    unknown_admin_probe(rep, &mut u, "interchain-token", "interchain-token", &["owner", "transfer_ownership", "version", "upgrade", "migrate"], &tk, &stranger, &[owner.clone(), minter.clone()], &move |u: &mut U| {
+                        let (a, m, st) = (a.clone(), m.clone(), st.clone());
+                        u.query(move |env| {
+                            let c = InterchainTokenClient::new(env, &a);
+                            format!("owner={:?} minter={:?} stranger-minter={:?}", c.try_owner(), c.try_is_minter(&m), c.try_is_minter(&st))
+                        })
+                    });
+                }
             }
             _ => {
                 // Upgrader: the target's owner must authorise both steps
